@@ -334,7 +334,7 @@ func main() {
 		{name: "pool2-2callers-drop", hosts: 1, numConns: 2, callers: 2, fates: rd, t: [2]int{2, 3}},
 		{name: "pool1-drop-refill", hosts: 1, numConns: 1, callers: 2, fates: []string{"drop", "reply"}, t: [2]int{2, 3}},
 		{name: "pool2-drop-refill", hosts: 2, numConns: 2, callers: 2, fates: []string{"drop", "reply"}, t: [2]int{1, 2}},
-		{name: "pool3-dialfault", hosts: 1, numConns: 3, callers: 2, dialFault: true, fates: rd, t: [2]int{2, 3}},
+		{name: "pool3-dialfault", hosts: 1, numConns: 3, callers: 1, dialFault: true, fates: rd, t: [2]int{2, 3}},
 		{name: "host-up-twice-concurrently", hosts: 1, numConns: 2, upTwice: true, fates: ok, t: [2]int{1, 2}},
 		{name: "pool3-two-lost-handshake-fates", hosts: 1, numConns: 3, refill3: true, fates: ok, t: [2]int{1, 2}},
 		{name: "pool2-closeerr-close", hosts: 1, numConns: 2, callers: 1, closers: 1, closeErr: true, fates: rd, t: [2]int{2, 3}},
